@@ -24,3 +24,29 @@ pub fn bad_transfer(g: &mut impl GraphLike, v0: V, v1: V) {
 }
 
 pub fn full_simp(g: &mut crate::equality::G2) {}
+
+pub trait ScalarLike {
+    fn mul_sqrt2_pow(&mut self, p: i32);
+}
+pub trait HasScalar {
+    type S: ScalarLike;
+    fn scalar_mut(&mut self) -> &mut Self::S;
+}
+
+/// control (C01 R-EFFECT-fuse): one sqrt2 factor per group instead of per removed gadget; the phase accumulator is overwritten
+pub fn fuse_gadgets<G: GraphLike + HasScalar>(g: &mut G, gadgets: &std::collections::HashMap<Vec<V>, Vec<(V, V)>>) {
+    for (vs, gs) in gadgets.iter() {
+        if gs.len() > 1 {
+            let num = gs.len() as i32;
+            let degree = vs.len() as i32;
+            let mut ph = 0i64;
+            for (u, v) in gs.iter().skip(1).copied() {
+                ph = g.phase(v);
+                g.remove_vertex(u);
+                g.remove_vertex(v);
+            }
+            g.add_to_phase(gs[0].1, ph);
+            g.scalar_mut().mul_sqrt2_pow(-(degree - 1));
+        }
+    }
+}
